@@ -19,7 +19,9 @@
 #define VERIF_C09_POWERSET_H
 #include "../C03/box_base.h"
 #define PS_N 2
-#define PS_MAX 4
+#ifndef PS_MAX
+# define PS_MAX 4          /* most disjuncts any state of the task can have (set per task: operands plus results) */
+#endif
 #define NB_T   struct struct_2estd_3a_3a__detail_3a_3a_List_node_base
 #define NODE_T struct struct_2estd_3a_3a_List_node
 #define DET_T  struct class_2eParma_Polyhedra_Library_3a_3aDeterminate
